@@ -16,11 +16,19 @@ import (
 )
 
 type Clause struct {
-	Text string
-	Expr ast.Expr
-	Src  string   // file:line
-	Cond ast.Expr // modifies ... when <cond>
+	Text  string
+	Expr  ast.Expr
+	Src   string   // file:line
+	Cond  ast.Expr // modifies ... when <cond>
 	Props []string // [C15 C01] prefix: the clause is an obligation of these properties only
+}
+
+// SiteAssert: `assert_at "<source text>": <expr over locals>` - checked (and then
+// assumed) right before every statement of the function whose source line contains
+// the text. Keyed by text, not by line number.
+type SiteAssert struct {
+	Text string
+	Cl   *Clause
 }
 
 type LoopSpec struct {
@@ -58,13 +66,14 @@ type Contract struct {
 	Src         string
 	Ghost       []string
 	NoFrame     bool
-	Cases       []*Clause // case split: the function is verified once under each case assumption
-	Witnesses   []*Clause // candidate witnesses (over locals) for exists() in postconditions
-	Volatile    []string  // field suffixes (e.g. ".state.v") that other goroutines may write at any time
-	PostsOnly   bool // only the postconditions (and loop invariants) are claimed, not the safety obligations
-	Partial     bool // paths that reach a construct outside the subset are abandoned; every postcondition must be vacuous there
-	WrapsSigned bool      // signed arithmetic of this function wraps by design (no overflow obligations)
-	IntOnly     bool      // use the contract only from int-mode callers; bv-mode callers inline the body
+	Cases       []*Clause     // case split: the function is verified once under each case assumption
+	SiteAsserts []*SiteAssert // assertions at the statements whose source line contains a given text
+	Witnesses   []*Clause     // candidate witnesses (over locals) for exists() in postconditions
+	Volatile    []string      // field suffixes (e.g. ".state.v") that other goroutines may write at any time
+	PostsOnly   bool          // only the postconditions (and loop invariants) are claimed, not the safety obligations
+	Partial     bool          // paths that reach a construct outside the subset are abandoned; every postcondition must be vacuous there
+	WrapsSigned bool          // signed arithmetic of this function wraps by design (no overflow obligations)
+	IntOnly     bool          // use the contract only from int-mode callers; bv-mode callers inline the body
 }
 
 type SpecFunc struct {
@@ -125,7 +134,7 @@ func newContractDB() *ContractDB {
 	return &ContractDB{Funcs: map[string]*Contract{}, Specs: map[string]*SpecFunc{}, Lemmas: map[string]*Lemma{}, Consts: map[string]string{}, Ghosts: map[string]string{}}
 }
 
-var keywordRe = regexp.MustCompile(`^(package|axiom|func|requires|ensures|modifies|mode|loop|invariant|decreases|hint|unfold|use|induct|may_panic|trusted|abstracts|inline|intonly|partial|posts_only|wraps_signed|volatile|witness|cases|property|spec|lemma|struct|global|ghost|noframe|const)\b`)
+var keywordRe = regexp.MustCompile(`^(package|axiom|func|requires|ensures|modifies|mode|loop|invariant|decreases|hint|unfold|use|induct|may_panic|trusted|abstracts|inline|intonly|partial|posts_only|assert_at|wraps_signed|volatile|witness|cases|property|spec|lemma|struct|global|ghost|noframe|const)\b`)
 
 // stripComment removes a trailing `// ...` that is outside string literals
 func stripComment(s string) string {
@@ -653,6 +662,24 @@ func (db *ContractDB) LoadFile(path, pkgPath string, trusted bool) error {
 				cur.IntOnly = true
 			case "wraps_signed":
 				cur.WrapsSigned = true
+			case "assert_at":
+				// assert_at "text": expr
+				r := strings.TrimSpace(rest)
+				if !strings.HasPrefix(r, "\"") {
+					return fmt.Errorf("%s: assert_at needs a quoted source text", st.src)
+				}
+				j := strings.Index(r[1:], "\"")
+				if j < 0 {
+					return fmt.Errorf("%s: assert_at: unterminated text", st.src)
+				}
+				text := r[1 : 1+j]
+				r = strings.TrimSpace(r[2+j:])
+				r = strings.TrimPrefix(r, ":")
+				cl, err := parseClause(strings.TrimSpace(r), st.src)
+				if err != nil {
+					return err
+				}
+				cur.SiteAsserts = append(cur.SiteAsserts, &SiteAssert{Text: text, Cl: cl})
 			case "partial":
 				cur.Partial = true
 			case "posts_only":
